@@ -6,10 +6,15 @@ job() {
   d=$1; root=$2
   id=$(basename $(dirname $(dirname $d))); k=$(basename $d)
   tag=$(basename $root)_${id}_${k}
-  [ -f work/seeds/$tag.confirm.json ] && return
+  if [ -f work/seeds/$tag.confirm.json ]; then
+    case $root in /tmp/seed) [ -f work/seeds/$tag.confirmhead.json ] || SEED_BASE=$(git -C /repo rev-parse HEAD) tools/confirm_seed.sh $d /verif/work/seeds/$tag.confirmhead.json;; esac
+    return
+  fi
   base=8ef576c
   case $root in /tmp/seed2*) base=$(git -C $root/$id rev-parse HEAD);; /tmp/seed_adapted*) base=$(git -C /repo rev-parse HEAD);; esac
   SEED_BASE=$base tools/confirm_seed.sh $d /verif/work/seeds/$tag.confirm.json
+  # changes made against the pinned commit are also tried on the repaired tree: a repair may mask them
+  case $root in /tmp/seed) SEED_BASE=$(git -C /repo rev-parse HEAD) tools/confirm_seed.sh $d /verif/work/seeds/$tag.confirmhead.json;; esac
   echo "$tag confirm: $(python3 -c "import json;d=json.load(open('/verif/work/seeds/$tag.confirm.json'));print({k:d.get(k) for k in ('demo_unchanged_exit','apply_exit','build_exit','demo_changed_exit','existing_tests_exit')})")"
 }
 export -f job
